@@ -82,7 +82,7 @@ Definition c01_case (i r : sexp) : verdict :=
                   | Some (Some why, _) =>
                       if calls_main_prog p then VViol ("class=call-to-main-e2e " ++ name ++ " " ++ why)
                       else if negb (args_effect_free p) then VSkip ("mismatch in a program whose effects are not sequenced (argument evaluation order unspecified): " ++ name)
-                      (* former finding capture-under-binder-e2e (repaired in /repo by <commitcap>; no known_findings entry
+                      (* former finding capture-under-binder-e2e (repaired in /repo by d5d4151; no known_findings entry
                          matches it any more: a plain violation, the tag only describes it) *)
                       else if shadowing_risk_prog p then VViol ("class=capture-under-binder " ++ name ++ " " ++ why)
                       else VViol ("class=end-to-end-mismatch " ++ name ++ " " ++ why)
